@@ -28,6 +28,7 @@ type world struct {
 	f      *rig.Factory
 	trunk  []*types.Block
 	lo, hi int64
+	dcs    int64 // blockchain.defCacheSize of the receivers (0 = default)
 	mu     sync.Mutex // serialises executions on the factory's store
 	priv   []crypto.PrivKey
 	addr   []string // sender addresses (index = tx id, 0 unused)
@@ -48,6 +49,9 @@ func (w *world) mutate(cfg *types.Chain33Config) {
 	m := cfg.GetModuleConfig()
 	m.BlockChain.LowAllowPackHeight = w.lo
 	m.BlockChain.HighAllowPackHeight = w.hi
+	if w.dcs > 0 {
+		m.BlockChain.DefCacheSize = w.dcs
+	}
 }
 
 func (w *world) init(seed int64, lo, hi int64) error {
